@@ -163,10 +163,12 @@ theorem inv_eff {g : Ghost} {s s' : St} {D : List Addr} {E : List Ev}
 theorem inv_sweep {g : Ghost} {s : St} (hI : Inv g s) (marks order : List Addr) :
     Inv g (sweep Cfg.current s marks order) ∧
       ∃ D E, Eff s (sweep Cfg.current s marks order) D E ∧ Good D E ∧
+        (∀ d ∈ D, d ∈ s.regAddrs) ∧
         (∀ e ∈ s.reg, swept marks e = true → e.addr ∈ D) ∧
-        (∀ d ∈ D, ∃ e ∈ s.reg, swept marks e = true ∧ (d = e.addr ∨ Reach s e.addr d)) := by
-  obtain ⟨D, E, he, hg, hD, hsw, hr⟩ := sweep_spec s marks order hI.pending hI.nodup
-  exact ⟨inv_eff hI he hg hD, D, E, he, hg, hsw, hr⟩
+        (∀ d ∈ D, ∃ e ∈ s.reg, swept marks e = true ∧ (d = e.addr ∨ ReachT s (· ∈ s.regAddrs) e.addr d)) ∧
+        (s.running = true → ∀ d ∈ D, ∀ y ∈ s.ownsOf d, y ∈ s.regAddrs → y ∈ D) := by
+  obtain ⟨D, E, he, hg, hD, hsw, hr, hk⟩ := sweep_spec s marks order hI.pending hI.nodup
+  exact ⟨inv_eff hI he hg hD, D, E, he, hg, hD, hsw, hr, hk⟩
 
 theorem step_new_raw (c : Cfg) (s : St) (a : Addr) (owned marks order : List Addr) :
     step c s (.new a .raw owned marks order) = { s with owns := (a, owned) :: s.owns } := rfl
@@ -396,7 +398,7 @@ theorem gcRem_registered {g : Ghost} {s : St} (hI : Inv g s) (b : Addr) (hrun : 
     show s.pending = strikeAll [b] s.pending
     rw [hI.pending]; rfl
   have hlt : mu s1 < fuelFor s := Nat.lt_of_le_of_lt he.mu_le (mu_lt_fuelFor _)
-  obtain ⟨D, E, heff, hgood, htr, _, hcompl⟩ := finalise_spec (fuelFor s) s1 b (he.disj hI.disj) hlt
+  obtain ⟨D, E, heff, hgood, htr, _, hcompl, _⟩ := finalise_spec (fuelFor s) s1 b (he.disj hI.disj) hlt
   have hbD : b ∉ D := fun hd => ((he.tracked b).1 (htr b hd)).2 (List.mem_singleton.2 rfl)
   have hres : gcRem (finalise (fuelFor s) Cfg.current) Cfg.current s b =
       { finalise (fuelFor s) Cfg.current s1 b with
